@@ -35,3 +35,55 @@ func init() {
 		Assumptions: append([]string{"the SCCP evaluator implements Go's semantics for the constructs it folds (type switch, comma-ok assertion, string switch, strings.ToLower on constants)"}, commonAssumptions...),
 	})
 }
+
+func init() {
+	addProp(&PropSpec{
+		ID: "C09", Level: "other",
+		Quick:       []string{"R-PHASE-STOP", "R-NO-DEFERRED-SUCCESS", "R-UNFOLDED-POLARITY", "R-ERR-BEFORE-USE"},
+		Explanation: "Decides, on every path of the Go code of the typechecker, structural necessary conditions of totality: no phase runs after an earlier phase reported an error (must-not-continue on the driver's CFG); the success signal is sent only on the normal-completion path with every phase result nil (never from a deferred function or a recover path); Polarity() is only ever called on unfolded types (typestate, incl. the name arguments reaching the explicit-polarity check); no result of an (…, error)-returning helper is dereferenced before its error is tested.",
+		NotDecided:  "implicit run-time panics other than those covered (nil dereference, index), the wall-clock bound, and behaviour of the object language; totality as a whole is not provable by this family",
+		Assumptions: commonAssumptions,
+	})
+	addProp(&PropSpec{
+		ID: "C08", Level: "other",
+		Quick:       []string{"R-MEMO-KEY"},
+		Explanation: "Decides memo-key coherence of the coinductive comparison: the key inserted into the visited set is, atom for atom with identical SSA operands, the key that was looked up at the head of the same activation (string-shape domain over bytes.Buffer writes), and every recursive call on types taken from the definition environment is preceded by that insertion.",
+		NotDecided:  "that the algorithm decides bisimilarity (symmetry/transitivity are not checked independently); injectivity of the printed form used as key (see C15)",
+		Assumptions: commonAssumptions,
+	})
+	addProp(&PropSpec{
+		ID: "C10", Level: "other",
+		Quick:       []string{"R-DEAD-SET"},
+		Explanation: "Decides that every function-local set guarding an error exit (duplicate labels, duplicate type names, duplicate function names …) is written on a path that reaches its lookup, i.e. the duplicate-detection guards are live.",
+		NotDecided:  "the 'never rejects well-formed definitions' direction; the head annotation dropped at a shift (F15 of the property file) is not detected by any rule",
+		Assumptions: commonAssumptions,
+	})
+	addProp(&PropSpec{
+		ID: "C05", Level: "other",
+		Quick:       []string{"R-AXIOM-EMPTY", "R-CONSUME-DELETES", "R-BRANCH-COPY", "R-STRUCT-GATES", "R-FRESH-BINDER", "R-MULTI-CONTRACT", "R-MODE-TABLES"},
+		Explanation: "Decides on every path of every typing rule: axioms succeed only on an empty context; consuming a name deletes it; each case branch is typed in its own copy of the context; drop/split are gated by the weakening/contraction predicate of the consumed type's mode (tables proved in C17); every binder inserted into a context is fresh (or covered by the cut's reuse dichotomy); a multi-provider declaration requires contraction.",
+		NotDecided:  "completeness of the context-splitting heuristic (that every derivable program is accepted)",
+		Assumptions: commonAssumptions,
+	})
+	addProp(&PropSpec{
+		ID: "C13", Level: "other",
+		Quick:       []string{"R-ATOMIC"},
+		Explanation: "Decides that every location updated through sync/atomic (the run-time counters) is accessed atomically everywhere a goroutine sharing the object may exist: interprocedural may-precede analysis over the call graph relative to go statements whose target receives the counter-carrying object.",
+		NotDecided:  "a complete race analysis (no pointer analysis is available): races through aliased Name.Type pointers or shared slices are argued from ownership rules, not proved",
+		Assumptions: commonAssumptions,
+	})
+	addProp(&PropSpec{
+		ID: "C11", Level: "other",
+		Quick:       []string{"R-LOOP-EOF"},
+		Explanation: "Decides that every input-consuming loop of the scanner has an exit edge controlled by a comparison of the value just read with the end-of-input sentinel (natural loops over go/ssa; reader and sentinel found by role).",
+		NotDecided:  "the linear time bound, memory use and index safety of unread(); the goyacc driver loop is trusted",
+		Assumptions: commonAssumptions,
+	})
+	addProp(&PropSpec{
+		ID: "C12", Level: "other",
+		Quick:       []string{"R-END-MARKER"},
+		Explanation: "Decides that the token code the generated parser treats as end of input (read from the generated lexer wrapper) is returned by the scan functions only under 'value read == sentinel', and that the sentinel is not a rune the reader can deliver for input bytes. Three constructs violate this today and are listed as known finding F8.",
+		NotDecided:  "equivalence of the yacc grammar with the README grammar",
+		Assumptions: commonAssumptions,
+	})
+}
